@@ -104,6 +104,8 @@ def generate(seed, prop):
     grid = CV.draw_grid(rng)
     if prop in ("C20", "C08", "C05", "C12") and rng.random() < (0.12 if prop == "C20" else 0.05):
         grid = {"kind": "lin0", "hi": rng.choice([10.0, 25.0, 50.0]), "n": rng.choice([9, 17, 33])}
+    if prop in ("C05", "C08", "C12", "C11") and rng.random() < 0.04:
+        grid = {"kind": "fine", "lo": rng.choice([1.0, 40.0]), "n": rng.choice([12, 20, 30])}
     f = CV.gen_grid(grid)
     n_az = 1
     if kind in ("azimuthal", "multi"):
@@ -252,6 +254,19 @@ def generate(seed, prop):
             if name == "fdwra":
                 o["max_iterations"] = rng.choice([50, 50, 5])
                 o["kwargs"] = rng.choice([None, None, {}])
+        if grid.get("kind") == "fine" and name == "update_peaks":
+            # on a very fine grid the interesting neighbours of a range are the ranges one or two samples away, asked for with
+            # the very same (explicit) options
+            o["kwargs"], o["kw_alias"], o["rnum"] = {}, False, "float"
+            if last_range is not None and None not in last_range and rng.random() < 0.7:
+                ia = int(np.argmin(np.abs(f - last_range[0])))
+                ib = int(np.argmin(np.abs(f - last_range[1])))
+                ia = min(max(ia + rng.choice([-2, -1, 0, 1, 2]), 0), len(f) - 1)
+                ib = min(max(ib + rng.choice([-2, -1, 0, 1, 2]), 0), len(f) - 1)
+                o["range"] = [float(f[min(ia, ib)]), float(f[max(ia, ib)])]
+            else:
+                ia, ib = sorted(rng.sample(range(len(f)), 2))
+                o["range"] = [float(f[ia]), float(f[ib])]
         if "range" in o and name != "query":
             # biased schedule: repeat the range in use (with other kwargs / argument type) so that the
             # same-range short-circuit and 'only the kwargs changed' paths are exercised
@@ -264,6 +279,16 @@ def generate(seed, prop):
                 last_alias = bool(o.get("kw_alias"))
             last_range = list(o["range"])
         ops.append(o)
+        if name == "update_peaks" and not plain_kwargs(o.get("kwargs")) and rng.random() < 0.5 and len(f) >= 8:
+            # biased schedule: the same (non-default) peak options again on a range nested in the one just searched
+            lo_, hi_ = o["range"]
+            i_lo = 0 if lo_ is None or not np.isfinite(lo_) else int(np.argmin(np.abs(f - lo_)))
+            i_hi = len(f) - 1 if hi_ is None or not np.isfinite(hi_) else int(np.argmin(np.abs(f - hi_)))
+            if i_hi - i_lo >= 4:
+                j_hi = rng.randint(i_lo + 2, i_hi - 1)
+                ops.append({"op": "update_peaks", "range": [lo_, float(f[j_hi])], "rnum": "float", "rtype": o.get("rtype", "tuple"),
+                            "kwargs": copy.deepcopy(o["kwargs"]), "kw_alias": False, "fault": None})
+                last_range = list(ops[-1]["range"])
         if name == "update_member" and rng.random() < 0.5:
             # biased schedule: the container is then brought to the very range (and kwargs) one member already has
             o["rtype"] = "tuple"
